@@ -193,10 +193,11 @@ def property_holds(line, impl):
         if w == g:
             continue
         if w[0] == "a" and g[0] == "a" and len(w) == len(g):
-            k = next(j for j in range(len(w)) if w[j] != g[j])
+            wb, gb = w[1:], g[1:]
+            k = next(j for j in range(len(wb)) if wb[j] != gb[j])
             u, gid = U[k // len(G)], G[k % len(G)]
-            return ("is_member(uid=%d, gid=%d) answers %s but the databases %s say %s (answer #%d)"
-                    % (u, gid, g[k + 0], "loaded at that point", w[k], i))
+            return ("is_member(uid=%d, gid=%d) answers %s but the databases that must be visible at that point "
+                    "say %s (output token #%d)" % (u, gid, gb[k], wb[k], i))
         if w[0] == "q":
             return "lookup #%d answers %s, the databases say %s" % (i, g, w)
         if w[0] == "r":
@@ -534,7 +535,7 @@ def run(ctx):
     # the model on the same cases
     mismatches = []
     if oracle:
-        rc2, mod, err2 = vlib.run_lines([oracle], [l for _, l in cases], timeout=1800, env={"OCAMLRUNPARAM": "l=8G"})
+        rc2, mod, err2 = run_parallel(oracle, [l for _, l in cases], env={"OCAMLRUNPARAM": "l=8G"})
         if rc2 != 0 or len(mod) != len(cases):
             ctx.violation("oracle failed to run: rc=%d %s" % (rc2, err2[-300:]), {"obligation": "oracle run"}, found_input=False)
             return
